@@ -262,7 +262,8 @@ func (d *ParagraphDetector) detectLeftMargin(lines []Line) float64 {
 	maxCount := 0
 	mostCommonBucket := 0
 	for bucket, count := range marginCounts {
-		if count > maxCount {
+		// Ties go to the smaller bucket: map iteration order must not decide the result
+		if count > maxCount || (count == maxCount && bucket < mostCommonBucket) {
 			maxCount = count
 			mostCommonBucket = bucket
 		}
@@ -476,7 +477,8 @@ func (d *ParagraphDetector) detectDominantAlignment(lines []Line) LineAlignment 
 	maxCount := 0
 	dominant := AlignUnknown
 	for align, count := range counts {
-		if count > maxCount {
+		// Ties go to the smaller alignment value: map iteration order must not decide the result
+		if count > maxCount || (count == maxCount && align < dominant) {
 			maxCount = count
 			dominant = align
 		}
